@@ -63,6 +63,7 @@ def read_svg(data):
         raise Bad('neither width/height nor viewBox')
     info['page'] = page
     paths = []
+    rects = []
 
     def walk(el, scale, depth):
         for ch in el:
@@ -70,14 +71,16 @@ def read_svg(data):
             tr = ch.get('transform')
             sc = scale
             if tr is not None:
-                m = re.match(r'^scale\((%s)\)$' % NUM, tr)
-                if not m:
+                m = re.match(r'^scale\(\s*(%s)(?:[\s,]+(%s))?\s*\)$' % (NUM, NUM), tr.strip())
+                if not m or (m.group(2) is not None and float(m.group(2)) != float(m.group(1))):
                     raise Bad('transform %r' % tr)
                 sc = scale * float(m.group(1))
             if t == 'g':
                 walk(ch, sc, depth + 1)
             elif t == 'path':
                 paths.append((ch, sc))
+            elif t == 'rect':
+                rects.append((ch, sc))
             elif t in ('title', 'desc') and depth == 0:
                 info[t] = ch.text or ''
             else:
@@ -96,6 +99,7 @@ def read_svg(data):
         segs = []
         pts = []
         closed = False
+        nonhorizontal = False
         try:
             while i < len(toks):
                 t = toks[i]
@@ -107,16 +111,29 @@ def read_svg(data):
                     else:
                         x, y = x + nx, y + ny
                     pts.append((x, y))
-                elif t == 'h':
-                    dx = float(toks[i + 1])
+                elif t in 'hH':
+                    nx = float(toks[i + 1])
                     i += 2
-                    segs.append((x, y, x + dx))
-                    x += dx
+                    nx = nx if t == 'H' else x + nx
+                    segs.append((x, y, nx))
+                    x = nx
                     pts.append((x, y))
-                elif t == 'v':
-                    dy = float(toks[i + 1])
+                elif t in 'vV':
+                    ny = float(toks[i + 1])
                     i += 2
-                    y += dy
+                    y = ny if t == 'V' else y + ny
+                    nonhorizontal = True
+                    pts.append((x, y))
+                elif t in 'lL':
+                    nx, ny = float(toks[i + 1]), float(toks[i + 2])
+                    i += 3
+                    if t == 'l':
+                        nx, ny = x + nx, y + ny
+                    if ny == y:
+                        segs.append((x, y, nx))
+                    else:
+                        nonhorizontal = True
+                    x, y = nx, ny
                     pts.append((x, y))
                 elif t in 'zZ':
                     closed = True
@@ -125,9 +142,28 @@ def read_svg(data):
                     raise Bad('path command %r' % t)
         except (IndexError, ValueError):
             raise Bad('path data truncated %r' % d[-30:])
-        out.append({'stroke': el.get('stroke'), 'fill': el.get('fill'), 'stroke_opacity': el.get('stroke-opacity'),
+        if nonhorizontal and el.get('fill') in (None, 'none'):
+            raise Bad('stroked path with non-horizontal segments (this reader rasterises horizontal strokes only)')
+        out.append({'stroke': el.get('stroke'), 'fill': el.get('fill') if el.get('fill') != 'none' else None,
+                    'stroke_opacity': el.get('stroke-opacity'),
                     'fill_opacity': el.get('fill-opacity'), 'cls': el.get('class'), 'scale': sc,
                     'segs': segs, 'pts': pts, 'closed': closed, 'stroke_width': el.get('stroke-width')})
+    for el, sc in rects:
+        try:
+            x0 = float(el.get('x', '0'))
+            y0 = float(el.get('y', '0'))
+            rw = float(re.match(NUM, el.get('width')).group(0))
+            rh = float(re.match(NUM, el.get('height')).group(0))
+        except (TypeError, AttributeError, ValueError):
+            raise Bad('rect geometry')
+        if el.get('width', '').endswith('%'):
+            rw = info['page'][0] * rw / 100.0 / sc
+        if el.get('height', '').endswith('%'):
+            rh = info['page'][1] * rh / 100.0 / sc
+        out.insert(0, {'stroke': None, 'fill': el.get('fill', 'black'), 'stroke_opacity': None,
+                       'fill_opacity': el.get('fill-opacity'), 'cls': el.get('class'), 'scale': sc, 'segs': [],
+                       'pts': [(x0, y0), (x0 + rw, y0), (x0 + rw, y0 + rh), (x0, y0 + rh)], 'closed': True,
+                       'stroke_width': None, 'rect': True})
     info['paths'] = out
     return info
 
@@ -212,6 +248,24 @@ def read_eps(text):
                     raise Bad('non-horizontal line')
                 pending.append((x, y, x + dx))
                 x += dx
+            elif t == 'lineto':
+                ny = stack.pop()
+                nx = stack.pop()
+                if ny != y:
+                    raise Bad('non-horizontal line')
+                pending.append((x, y, nx))
+                x = nx
+            elif t == 'setgray':
+                g = stack.pop()
+                if not 0 <= g <= 1:
+                    raise Bad('setgray out of range')
+                color = (g, g, g)
+            elif t == 'setlinewidth':
+                lw = stack.pop()
+                if lw != 1:
+                    raise Bad('line width %r (this reader assumes the default width 1)' % lw)
+            elif t in ('gsave', 'grestore', 'showpage', 'closepath'):
+                pass
             elif t == 'stroke':
                 stroke_color = color
                 segs.extend(pending)
@@ -362,8 +416,18 @@ def read_pdf(data):
                     raise Bad('f without path')
                 bg = (fillc, rect)
                 rect = None
-            elif t in ('q', 'Q'):
+            elif t in ('q', 'Q', 'n', 'h'):
                 pass
+            elif t == 'g':
+                g = stack.pop()
+                fillc = (g, g, g)
+            elif t == 'G':
+                g = stack.pop()
+                strokec = (g, g, g)
+            elif t == 'w':
+                lw = stack.pop()
+                if lw != 1:
+                    raise Bad('line width %r (this reader assumes the default width 1)' % lw)
             elif t == 'm':
                 py = stack.pop()
                 px = stack.pop()
